@@ -240,7 +240,7 @@ def run_ops(case):
 def run_ops_(case):
     from tracklib.core import ObsTime
     za, zb = case.get('zones', [0, 0])            # a time-zone label on the timestamp: the calendar fields are what is converted, compared and shifted
-    a = ObsTime(*case['a'], za); b = ObsTime(*case['b'], zb)
+    a = ObsTime(*case['a'], za); b = ObsTime(*[int(str(v)) for v in case['b']], zb)      # b's fields are numbers obtained independently (parsed from text): equal values, not the same objects
     a0 = ObsTime(*(case['a'][:6] + [case['a'][6] if case.get('addms') else 0]), za)
     if case.get('edit'):
         # the same timestamps reached by editing the public calendar fields of objects that were already converted, compared and shifted
